@@ -27,7 +27,9 @@ type Profile struct {
 	Ordered            bool
 	MaxSteps           int
 	APIOps             []string // api ops enabled in the step phase
-	Holds              []string // yield points that may be armed
+	Holds              []string // yield points that may be armed (before Run starts)
+	HoldOps            []string // requests fired while the hold is engaged
+	BackoffStops       bool     // exits of restarting processes may be followed by a stop inside the back-off
 	ShutdownStep       bool     // one shutdown somewhere on the tape
 	UnknownNames       bool
 	Codes              []int
@@ -261,6 +263,12 @@ func RunGenerated(t *rapid.T, pr Profile) *sc.History {
 }
 
 func RunSteps(t *rapid.T, s *sc.Scenario, pr Profile) *sc.History {
+	var hold *sc.Step
+	if len(pr.Holds) > 0 && pct(t, 65, "prehold?") {
+		h := sc.Step{Op: sc.OpHold, Point: pick(t, pr.Holds, "holdpoint"), Proc: pick(t, s.Procs, "holdproc").Name}
+		s.PreHolds = append(s.PreHolds, h)
+		hold = &h
+	}
 	e, err := sc.Begin(s)
 	if err != nil {
 		t.Fatalf("generator produced a project the loader rejects: %v\n%s", err, sc.YAML(s.Procs, false, 0))
@@ -269,23 +277,33 @@ func RunSteps(t *rapid.T, s *sc.Scenario, pr Profile) *sc.History {
 	if len(codes) == 0 {
 		codes = []int{0, 1, 2}
 	}
+	do := func(st sc.Step) {
+		s.Steps = append(s.Steps, st)
+		e.Do(st)
+	}
 	n := irange(t, 0, pr.MaxSteps, "nsteps")
 	shutdownAt := -1
 	if pr.ShutdownStep {
 		shutdownAt = irange(t, 0, n, "shutdownAt")
 	}
+	holdFired := false
 	for i := 0; i <= n; i++ {
-		if i == shutdownAt && !e.ShutdownSeen {
-			if len(pr.Holds) > 0 && pct(t, 50, "hold?") {
-				hp := pick(t, pr.Holds, "holdpoint")
-				proc := pick(t, s.Procs, "holdproc").Name
-				st := sc.Step{Op: sc.OpHold, Point: hp, Proc: proc, NoSettle: true}
-				s.Steps = append(s.Steps, st)
-				e.Do(st)
+		// the window is open: a goroutine is parked at the yield point
+		if hold != nil && !holdFired && e.W.HoldEngaged(hold.Point, hold.Proc) && len(pr.HoldOps) > 0 && pct(t, 75, "fire-in-hold?") {
+			holdFired = true
+			op := pick(t, pr.HoldOps, "holdop")
+			if op == sc.OpShutdown {
+				if !e.ShutdownSeen {
+					do(sc.Step{Op: sc.OpShutdown})
+				}
+			} else {
+				do(sc.Step{Op: op, Proc: hold.Proc})
 			}
-			st := sc.Step{Op: sc.OpShutdown}
-			s.Steps = append(s.Steps, st)
-			e.Do(st)
+			do(sc.Step{Op: sc.OpRelease, Point: hold.Point, Proc: hold.Proc})
+			continue
+		}
+		if i == shutdownAt && !e.ShutdownSeen {
+			do(sc.Step{Op: sc.OpShutdown})
 		}
 		if i == n {
 			break
@@ -308,8 +326,19 @@ func RunSteps(t *rapid.T, s *sc.Scenario, pr Profile) *sc.History {
 				st = opts[irange(t, 0, len(opts)-1, "opt")]
 			}
 		}
-		s.Steps = append(s.Steps, st)
-		e.Do(st)
+		// an exit of a restarting process, followed by a stop request inside its back-off
+		if sp := s.Spec(st.Proc); pr.BackoffStops && st.Op == sc.OpExit && sp != nil && (sp.Restart == "always" || sp.Restart == "on_failure") && pct(t, 30, "stop-in-backoff?") {
+			st.NoSettle = true
+			do(st)
+			do(sc.Step{Op: sc.OpAwaitState, Proc: st.Proc, Text: "Restarting", N: 3, NoSettle: true})
+			if pct(t, 30, "shutdown-in-backoff?") && !e.ShutdownSeen {
+				do(sc.Step{Op: sc.OpShutdown})
+			} else {
+				do(sc.Step{Op: sc.OpStop, Proc: st.Proc})
+			}
+			continue
+		}
+		do(st)
 	}
 	return e.Finish()
 }
